@@ -191,6 +191,20 @@ impl Prop for C01 {
         gen_trees("pairs", 2, &all, sink);
         let l16: Vec<String> = all.iter().take(15).cloned().chain(std::iter::once(all[17].clone())).collect();
         gen_trees("trees3", 3, &l16, sink);
+        // integer powers beyond the tree families' |n| <= 6 (binary powers
+        // and their neighbours, both signs), on bases of every literal kind
+        for b in ["0", "1", "-1", "2", "-3", "10", "0.5", "-0.5", ".25", "1.5e1", "2e-1", "50%", "12.5%", "1e40", "1e-40", "1234567890123456789012345678901234567891"] {
+            for n in [-999i64, -256, -255, -100, -65, -64, -63, -33, -32, -31, -17, -16, -15, -9, -8, -7, 7, 8, 9, 15, 16, 17, 31, 32, 33, 63, 64, 65, 100, 255, 256, 999] {
+                // keep exact results below ~30k bits: num's gcd(x, 1) is
+                // quadratic in the size of x (minutes beyond that, not a verdict)
+                let v = crate::refcalc::ref_decimal(b).unwrap();
+                if (v.numer().bits() + v.denom().bits()) * n.unsigned_abs() > 30_000 {
+                    continue;
+                }
+                sink(Case::new("powers", format!("{b} ^ {n}")));
+                sink(Case::new("powers", format!("({b} ^ {n}) * {b}")));
+            }
+        }
         let l6: Vec<String> = ["0", "2", "-3", "0.5", "1e2", "50%"].iter().map(|s| s.to_string()).collect();
         gen_trees("trees4", 4, &l6, sink);
         if tier == Tier::Thorough {
